@@ -38,6 +38,7 @@ def run(ctx):
     ctx.rule("R03.e", "_register_watcher appends to / removes from the table paths the setter and _trigger_event read", floor=3)
     ctx.rule("R03.f", "_call_watcher: a watcher is skipped iff (not TRIGGER and onlychanged and not changed); otherwise queued iff batching else executed (32 abstract cases, exhaustive)", floor=1)
     ctx.rule("R03.h", "flush model (abstract interpretation on small queues): every queued watcher runs exactly once in (precedence, queue position) order with the last event per watched parameter; cascaded events are delivered in a further round", floor=1)
+    ctx.rule("R03.m", "setter model: Parameter.__set__ interpreted abstractly on every combination (576) of route x constant/readonly x validation outcome x identity x reference mode x watchers x batching agrees with the specification of this property (see checks/setter_model.py)", floor=1)
     ctx.not_decided += ["exactly-once delivery counts, depth-first cascades and queued semantics over all programs (need an executable reference semantics)"]
 
     f = ctx.repo.method(PARAMETER, "__set__")
@@ -269,3 +270,7 @@ def run(ctx):
     # the structural findings above are still reported
     from checks.shared import flush_model
     flush_model(ctx, "R03.h")
+
+    # model-level rule, run last (see DESIGN §10)
+    from checks import setter_model
+    setter_model.report(ctx, "C03", "R03.m")
